@@ -356,7 +356,10 @@ def dpss(N, NW=None, k=None):
                 tapsum[i] *= -1
                 tapers[:, i] *= -1
         else:
-            if tapers[0, i] < 0:
+            # the very first samples can be at rounding-noise level (large N, large NW):
+            # decide on the first sample that is clearly part of the first lobe
+            w = tapers[:, i]
+            if w[w * w > max(1e-7, 1.0 / N)][0] < 0:
                 tapsum[i] *= -1
                 tapers[:, i] *= -1
 
